@@ -538,6 +538,13 @@ func (conn *obfs4Conn) Write(b []byte) (int, error) {
 				// window and will sample the length distribution every time a
 				// write is scheduled.
 				targetLen := conn.lenDist.Sample()
+				if targetLen == 0 {
+					// 0 is a legitimate entry of the length table (for
+					// burst padding it means "end on a segment boundary"),
+					// but a zero length write is meaningless, so treat it
+					// as a full segment here as well.
+					targetLen = framing.MaximumSegmentLength
+				}
 				if frameBuf.Len() < targetLen {
 					// There's not enough data buffered for the target write,
 					// so padding must be inserted.
